@@ -1,6 +1,6 @@
 """Scripted HTTP/1.1 endpoint on 127.0.0.1 playing the part of an S3 server (C09).
 
-Every GET/PUT is logged (kind, path, Authorization header).  Requests whose query contains
+Every GET/PUT is logged (kind, method, path, Authorization header, length and md5 of the request body).  Requests whose query contains
 `max-keys` are *bucket listings* and consume `bucket_script`; all other requests are *object*
 requests and consume `object_script`.  When a script is exhausted the good response is sent.
 
@@ -15,6 +15,7 @@ Actions (tuples):
   ('ok',)         the complete good response
 The good bucket listing depends on `bucket_state` in {'full', 'empty', 'missing'}.
 """
+import hashlib
 import http.server
 import select
 import socket
@@ -63,12 +64,11 @@ class FakeS3:
 
             def _serve(self):
                 n = int(self.headers.get('Content-Length') or 0)
-                if n:
-                    self.rfile.read(n)
+                sent = self.rfile.read(n) if n else b''
                 is_bucket = 'max-keys' in self.path
                 with fake.lock:
                     fake.log.append(('B' if is_bucket else 'O', self.command, self.path,
-                                     self.headers.get('Authorization')))
+                                     self.headers.get('Authorization'), len(sent), hashlib.md5(sent).hexdigest()))
                     script = fake.bucket_script if is_bucket else fake.object_script
                     act = script.pop(0) if script else ('ok',)
                     state = fake.bucket_state
